@@ -236,7 +236,9 @@ static RunRes runIsolated(const std::string& reader, const std::string& data, bo
         } else {
             // the verdict goes out before dump and exercise, so a crash there is attributed correctly
             send(std::string("R ok\n") + tb);
-            if (wantDump) send("K " + dumpGeom(reinterpret_cast<const Geometry*>(g)) + "\n"); else send("K -\n");
+            if (wantDump) send("K " + dumpGeom(reinterpret_cast<const Geometry*>(g)) + "\n");
+            else { static const char* TAG[] = {"P", "L", "R", "Y", "MP", "ML", "MY", "GC", "C", "K", "U", "MC", "MS"}; int t = GEOSGeomTypeId_r(H, g);
+                   send(std::string("K 0 ") + (t >= 0 && t < 13 ? TAG[t] : "?") + "\n"); }
             double slow = 0; const char* slowOp = "-";
             std::string ex = g_noExercise ? std::string("skipped") : exercise(g, &slow, &slowOp);
             double t1 = cpuNow(); GEOSGeom_destroy_r(H, g); double td = cpuNow() - t1; if (td > slow) { slow = td; slowOp = "destroy"; }
